@@ -31,6 +31,10 @@ var VFS = map[string]*VNode{
 // VCrashMsg which the harness recognises). 0 = never.
 var VOps, VCrashAt int
 
+// Fault model: the VFailAt-th operation fails (no space left, quota, I/O
+// error) if it is one that creates or writes; 0 = never.
+var VFailAt int
+
 const VCrashMsg = "verif: process killed here"
 
 func vOp() {
@@ -38,6 +42,14 @@ func vOp() {
 	if VCrashAt != 0 && VOps == VCrashAt {
 		panic(VCrashMsg)
 	}
+}
+
+// vFault reports whether the current (just counted) operation must fail.
+func vFault(op, path string) error {
+	if VFailAt != 0 && VOps == VFailAt {
+		return &fs.PathError{Op: op, Path: path, Err: syscall.ENOSPC}
+	}
+	return nil
 }
 
 // VCwd is the process working directory.
@@ -232,6 +244,10 @@ func Os_OpenFile(name string, flag int, perm fs.FileMode) (*os.File, error) {
 		if flag&os.O_CREATE == 0 {
 			return nil, &fs.PathError{Op: "open", Path: name, Err: err}
 		}
+		// creating a file can fail (no space, quota, unwritable directory)
+		if ferr := vFault("open", name); ferr != nil {
+			return nil, ferr
+		}
 		abs := vAbs(name)
 		par, perr := vLookup(vParent(abs), true)
 		if perr != nil || !par.Dir {
@@ -319,6 +335,19 @@ func OsFile_Write(f *os.File, b []byte) (int, error) {
 	vf, err := vOf(f)
 	if err != nil {
 		return 0, err
+	}
+	if ferr := vFault("write", vf.name); ferr != nil && vf.pipe == nil && vf.wr {
+		// a short write: half of the bytes reach the file
+		half := b[:len(b)/2]
+		if vf.app {
+			vf.pos = len(vf.node.Data)
+		}
+		for vf.pos > len(vf.node.Data) {
+			vf.node.Data = append(vf.node.Data, 0)
+		}
+		vf.node.Data = append(vf.node.Data[:vf.pos], half...)
+		vf.pos += len(half)
+		return len(half), ferr
 	}
 	if vf.pipe != nil {
 		if vf.pipe.rclosed {
@@ -420,6 +449,9 @@ func Os_Remove(name string) error {
 
 func Os_Rename(oldpath, newpath string) error {
 	vOp()
+	if ferr := vFault("rename", newpath); ferr != nil {
+		return &os.LinkError{Op: "rename", Old: oldpath, New: newpath, Err: syscall.ENOSPC}
+	}
 	oa, na := vAbs(oldpath), vAbs(newpath)
 	n, ok := VFS[oa]
 	if !ok {
